@@ -65,6 +65,8 @@ type Config struct {
 
 	RegisterWhitelist []string // overrides the body reader's register whitelist when non-nil
 	ModuleList        bool     // wrap the authboss routes in authboss.ModuleListMiddleware
+	NilEmptyState     bool     // the client-state stores return a nil ClientState for an empty jar (a store that has no session for the browser)
+	App2FAHandler     bool     // the application registers After(EventTwoFactorAdded/Removed) handlers that answer the request themselves
 	MailGoroutine     bool     // leave MailNoGoroutine=false (schedule engine only)
 	SMTPMailer        bool     // use defaults.SMTPMailer (through the vsmtp shim)
 }
@@ -107,6 +109,8 @@ type Stack struct {
 	FaultLabel  string // fail the first seam call with this label ("" = none)
 	faultFired  []string
 	stateWrites int
+	// UsedTokens records the (pid, hash) pairs UseRememberToken consumed during the current request.
+	UsedTokens []string
 
 	// Point is called before every seam operation when non-nil (scheduler hook).
 	Point func(label string)
@@ -446,6 +450,17 @@ func NewStack(cfg Config) (*Stack, error) {
 		if err != nil {
 			return nil, fmt.Errorf("module %s: %w", m, err)
 		}
+	}
+	if cfg.App2FAHandler {
+		app := func(w http.ResponseWriter, r *http.Request, handled bool) (bool, error) {
+			if handled {
+				return false, nil
+			}
+			ro := authboss.RedirectOptions{Code: http.StatusTemporaryRedirect, RedirectPath: "/app/2fa-changed", Success: "two factor settings changed"}
+			return true, ab.Config.Core.Redirector.Redirect(w, r, ro)
+		}
+		ab.Events.After(authboss.EventTwoFactorAdded, app)
+		ab.Events.After(authboss.EventTwoFactorRemoved, app)
 	}
 	if cfg.Has("lock") {
 		s.Lock = &lock.Lock{Authboss: ab}
